@@ -73,7 +73,7 @@ func (g *RWMutexGuard) Lock(ctx context.Context) error {
 	for {
 		select {
 		case <-ctx.Done():
-			return context.Cause(ctx)
+			return contextCause(ctx)
 		case <-ticker.C:
 			if g.TryLock() {
 				return nil
@@ -158,7 +158,7 @@ func (g *RWMutexGuard) RLock(ctx context.Context) error {
 	for {
 		select {
 		case <-ctx.Done():
-			return context.Cause(ctx)
+			return contextCause(ctx)
 		case <-ticker.C:
 			if g.TryRLock() {
 				return nil
@@ -273,3 +273,13 @@ const (
 	RWMutexStateShared
 	RWMutexStateExclusive
 )
+
+// contextCause returns the cause of a done context. Contexts that are not
+// derived from the standard library's cancelable contexts (e.g. the store's
+// primary context) report no cause so fall back to the context's error.
+func contextCause(ctx context.Context) error {
+	if err := context.Cause(ctx); err != nil {
+		return err
+	}
+	return ctx.Err()
+}
